@@ -90,3 +90,88 @@ class C07(Check):
         params = {'depth': D, 'sched': env_sched_c07(), 'assets': [1, 2, 3], 'runs': [1],
                   'ext': ['pause', 'unpause', 'cancel', 'step']}
         return split_first('env', f'ENV-C07[D{D}]', params, e2=10, max_states=3000000, max_seconds=3000)
+
+
+RM_ADDS = [['a', 1], ['a', -1], ['a', -2], ['b', 1], ['b', -1], ['n', 1], ['n', -3], ['a', 0]]
+RM_REQUESTS = [{'a': 1}, {'a': 2}, {'a': 1, 'b': 1}, {'b': 1, 'a': 2}, {'a': 0}, {}, {'a': 1, 'b': -1}, {'b': -1, 'a': 1},
+               {'a': -1}, {'zz': 1}, {'a': 1, 'zz': 0}, {'a': 1, 'zz': 1}]
+RM_RELEASES = [None, {'a': 1}, {'a': 5}, {'zz': 1}, {'a': 1, 'zz': 0}, {'a': -1}, {'a': 0}, {'b': 1}, {'a': 1, 'b': 5}]
+
+
+@check
+class C09(Check):
+    prop = 'C09'
+    technique = COMP_TECH
+    level_note = COMP_NOTE + (' The quantifier tail "longer sequences at random" is not part of this family of technique and '
+                              'is not done; the exhaustive depth is reported.')
+    rule = ('every sequence of <=D operations (D=6 quick, 8 thorough) on a real ResourceManager (pools a:2, b:1) from '
+            '{add_resources(a|b|new, +-1/-2/-3/0), reserve_resources(12 request shapes: single, multi in both key orders, zero, '
+            'empty, negative entry first/last, unknown name with 0 and 1), release(9 shapes: all, partial, excessive, unknown '
+            'key, zero of an unknown key next to a valid entry, negative, zero, second entry excessive) on each of <=3 live '
+            'reservations, merge(i,j) of distinct reservations}; non-trivial = partition in which something was reserved, '
+            'released and an operation raised')
+    level_text = ('Lock-step agreement with a reference pool after every operation: usage = sum of outstanding holdings >= 0, '
+                  'capacity >= 0, usage > capacity only after an explicit reduction, success iff the request fits and then exactly '
+                  'the request is taken, an operation that raises leaves pool and all reservations unchanged, merge keeps usage.')
+    nontrivial = _fact_nontrivial('reserved', 'released')
+
+    def jobs(self, tier):
+        D = 6 if tier == 'quick' else 8
+        params = {'depth': D, 'adds': RM_ADDS, 'requests': RM_REQUESTS, 'releases': RM_RELEASES}
+        return split_first('rm', f'RM-C09[D{D}]', params, e2=10, max_states=3000000, max_seconds=3000)
+
+
+@check
+class C10(Check):
+    prop = 'C10'
+    technique = COMP_TECH
+    level_note = COMP_NOTE
+    rule = ('every sequence of <=D operations (D=5 quick, 7 thorough) on a real ResourceManager + real Environment (pools a:1, b:1) '
+            'from {reserve_resources_with_callback(request in {a:1},{a:2},{a:1,b:1}; callback that does nothing / reserves the '
+            'request / reserves it and registers a new waiter), direct reserve, full release of any live reservation, '
+            'add_resources(a|b, +-1), "drain the current instant" (real step() until the instant is exhausted), "advance" (real '
+            'run(1))}, <=3 simultaneous waiters; all events of this world are interchangeable availability checks, so there is no '
+            'tie-break to enumerate; non-trivial = partition in which several waiters were served in one check and the clock advanced')
+    level_text = ('Lock-step agreement with a reference waiting list: at every drain/advance the log of callback invocations '
+                  '(identity, order, fitted-at-that-moment, arguments) equals one in-order scan of the reference that re-evaluates '
+                  'feasibility after each callback; never synchronously; whenever the clock advances no feasible request is registered.')
+    nontrivial = _fact_nontrivial('served_several_in_order', 'clock_advanced')
+
+    def jobs(self, tier):
+        D = 5 if tier == 'quick' else 7
+        params = {'depth': D, 'adds': [['a', 1], ['a', -1], ['b', 1], ['b', -1]],
+                  'requests': [{'a': 1}, {'a': 2}, {'a': 1, 'b': 1}]}
+        return split_first('rmwait', f'RMWAIT-C10[D{D}]', params, e2=10, max_states=3000000, max_seconds=3000)
+
+
+MAINT_TARGETS = [{'table': {'x': [1, [1], 3], 'y': [0, [0], 0]}},
+                 {'table': {'x': [2, [1.5, 1], 0], 'y': [1, [1], 0], 'big': [5, [1], 0]}},
+                 {'table': {'x': [1, [0], 3], 'y': [1, [0.5], 0]}, 'nested': {'start:x': [0, 'y'], 'end:y': [2, 'y']}}]
+MAINT_REQUESTS = [[0, 'x'], [0, 'y'], [1, 'x'], [1, 'y'], [1, 'big'], [2, 'x'], [2, 'y']]
+
+
+@check
+class C12(Check):
+    prop = 'C12'
+    technique = COMP_TECH
+    level_note = COMP_NOTE + (' "Start in request order" is read as the order in which the maintainer commits capacity to orders '
+                              '(selection); START_WORK events of orders selected in one scan are tied at one instant and may execute '
+                              'in either order (DESIGN.md section 5, C12).')
+    rule = ('for maintainer capacity 1, 2 and unlimited: every interleaving of <=D create_work_order calls (D=4 quick, 5 thorough) '
+            'over 3 targets x tags (needed capacity 0,1,2,5>total; durations 0, 0.5, 1, 1.5 -- one cycling per query; cost 0/3; '
+            'one target requesting further orders from inside its start and end hooks, including itself) with every real event '
+            'and every tie-break order among simultaneous starts/finishes; non-trivial = partition with overlapping orders, a '
+            'duplicate rejected and an order left queued while the clock advanced')
+    level_text = ('Lock-step agreement with a reference maintainer after every request and every real event: return value, '
+                  'available capacity, scheduled starts/finishes (finish = start + duration reported at start), waiting queue in '
+                  'request order, hooks once each, cost charged once at start, one record per occurrence; whenever the clock advances '
+                  'no startable order is waiting.')
+    nontrivial = _fact_nontrivial('overlapping_orders', 'rejected_duplicate')
+
+    def jobs(self, tier):
+        D = 4 if tier == 'quick' else 5
+        jobs = []
+        for cap in (1, 2, None):
+            params = {'depth': D, 'capacity': cap, 'targets': MAINT_TARGETS, 'requests': MAINT_REQUESTS}
+            jobs += split_first('maint', f'MAINT-C12[cap{cap},D{D}]', params, e2=10, max_states=3000000, max_seconds=3000)
+        return jobs
